@@ -3,6 +3,7 @@ package appdrv
 import (
 	"crypto/sha256"
 	"encoding/hex"
+	"encoding/json"
 	"fmt"
 	"math/rand"
 	"os"
@@ -123,9 +124,10 @@ func (r *Replica) execOut(op *Op) string {
 
 // Variant is a base scenario with extra ops for replica B.
 type Variant struct {
-	Desc string
-	Sc   *Scenario
-	Map  []int // Map[i] = index in the base scenario of op i, or -1 for an injected op
+	Desc  string
+	Sc    *Scenario
+	Class string // kind of injected call (for stratified sampling)
+	Map   []int  // Map[i] = index in the base scenario of op i, or -1 for an injected op
 }
 
 // withInjection returns a copy of base with ops inserted before base op index at.
@@ -165,6 +167,57 @@ func pairEvents(prop string, k int, v *Variant, a, b []*Output, emit func(J)) {
 		}
 		emit(J{"ev": "Pair", "k": k, "i": base, "kind": bi.Kind, "aout": ai.Out, "bout": bi.Out, "astate": ai.State, "bstate": bi.State})
 	}
+}
+
+// VariantFile is a self-contained replay of one (history, variant) pair: the base history replica A
+// executes, the variant replica B executes, and the correspondence of their ops.
+type VariantFile struct {
+	Prop    string    `json:"prop"`
+	Desc    string    `json:"desc"`
+	How     string    `json:"how"` // "process": B runs in another OS process; "inproc" otherwise
+	Base    *Scenario `json:"base"`
+	Variant *Scenario `json:"variant"`
+	Map     []int     `json:"map"`
+}
+
+// Differs reports whether any compared consensus call of the pair differs (used only to decide which
+// variants are worth saving as replay files; the verdict is ReplicasTrace.tla's).
+func (v *Variant) Differs(a, b []*Output) bool {
+	for i, bi := range b {
+		if bi == nil || v.Map[i] < 0 || a[v.Map[i]] == nil {
+			continue
+		}
+		ai := a[v.Map[i]]
+		if ai.State != bi.State || (bi.Kind != "check" && bi.Kind != "query" && ai.Out != bi.Out) {
+			return true
+		}
+	}
+	return false
+}
+
+// SaveVariant writes dir/variant-<k>.json.
+func SaveVariant(dir, prop string, k int, how string, base *Scenario, v *Variant) {
+	if dir == "" {
+		return
+	}
+	bz, _ := json.Marshal(&VariantFile{Prop: prop, Desc: v.Desc, How: how, Base: base, Variant: v.Sc, Map: v.Map})
+	_ = os.WriteFile(fmt.Sprintf("%s/variant-%d.json", dir, k), bz, 0o644)
+}
+
+// LoadVariant reads a replay file written by SaveVariant.
+func LoadVariant(path string) (*VariantFile, error) {
+	bz, err := os.ReadFile(path)
+	if err != nil {
+		return nil, err
+	}
+	vf := &VariantFile{}
+	if err := json.Unmarshal(bz, vf); err != nil {
+		return nil, err
+	}
+	if vf.Base == nil || vf.Variant == nil || len(vf.Map) != len(vf.Variant.Ops) {
+		return nil, fmt.Errorf("%s is not a variant replay file", path)
+	}
+	return vf, nil
 }
 
 // InjectionPool builds the CheckTx / Query ops to inject into block `blockOps`
@@ -227,16 +280,21 @@ func InjectionPool(base *Scenario, begin int, b *Builder, view *View, h int64, r
 	mk("garbage", randBytes(rng, 40))
 	pool = append(pool, Op{Kind: "check", Tx: "", Tag: "empty"})
 	// queries
-	for _, qh := range []int64{0, h - 1, h, h + 1, -1} {
+	// queries: every path in both tiers (a read-only handler that writes is as likely in one path as in another)
+	qhs := []int64{0, h - 1}
+	if full {
+		qhs = []int64{0, h - 1, h, h + 1, -1}
+	}
+	for _, qh := range qhs {
 		pool = append(pool, Op{Kind: "query", Path: "account", Data: fmt.Sprintf("%x", kr.Addr(4)), QH: qh})
 		pool = append(pool, Op{Kind: "query", Path: "delegatee", Data: fmt.Sprintf("%x", kr.Addr(1)), QH: qh})
-		if full {
-			pool = append(pool, Op{Kind: "query", Path: "reward", Data: fmt.Sprintf("%x", kr.Addr(1)), QH: qh})
-			pool = append(pool, Op{Kind: "query", Path: "stakes", Data: fmt.Sprintf("%x", kr.Addr(4)), QH: qh})
-			pool = append(pool, Op{Kind: "query", Path: "proposal", QH: qh})
-			pool = append(pool, Op{Kind: "query", Path: "gov_params", QH: qh})
-			pool = append(pool, Op{Kind: "query", Path: "stakes/total_power", QH: qh})
-		}
+		pool = append(pool, Op{Kind: "query", Path: "reward", Data: fmt.Sprintf("%x", kr.Addr(1)), QH: qh})
+		pool = append(pool, Op{Kind: "query", Path: "stakes", Data: fmt.Sprintf("%x", kr.Addr(4)), QH: qh})
+		pool = append(pool, Op{Kind: "query", Path: "proposal", QH: qh})
+		pool = append(pool, Op{Kind: "query", Path: "gov_params", QH: qh})
+		pool = append(pool, Op{Kind: "query", Path: "stakes/total_power", QH: qh})
+		pool = append(pool, Op{Kind: "query", Path: "stakes/voting_power", QH: qh})
+		pool = append(pool, Op{Kind: "query", Path: "vm_call", Data: fmt.Sprintf("%x%x", kr.Addr(4), kr.Addr(5)), QH: qh})
 	}
 	return pool
 }
@@ -409,7 +467,9 @@ func IsolationVariants(base *Scenario, rootA string, rng *rand.Rand, budget int,
 		}
 		for gap := i; gap <= end+1 && gap <= len(base.Ops); gap++ {
 			for pi, p := range pool {
-				out = append(out, withInjection(base, gap, fmt.Sprintf("block %d: %s %s %s before op %d", h, p.Kind, p.Tag, p.Path, gap), p))
+				v := withInjection(base, gap, fmt.Sprintf("block %d: %s %s %s before op %d", h, p.Kind, p.Tag, p.Path, gap), p)
+				v.Class = p.Kind + ":" + p.Tag + p.Path
+				out = append(out, v)
 				_ = pi
 			}
 		}
@@ -418,13 +478,41 @@ func IsolationVariants(base *Scenario, rootA string, rng *rand.Rand, budget int,
 			for n := 0; n < 20; n++ {
 				p1, p2 := pool[rng.Intn(len(pool))], pool[rng.Intn(len(pool))]
 				gap := i + rng.Intn(end-i+2)
-				out = append(out, withInjection(base, gap, fmt.Sprintf("block %d: pair %s/%s before op %d", h, p1.Tag+p1.Path, p2.Tag+p2.Path, gap), p1, p2))
+				v := withInjection(base, gap, fmt.Sprintf("block %d: pair %s/%s before op %d", h, p1.Tag+p1.Path, p2.Tag+p2.Path, gap), p1, p2)
+				v.Class = "pair"
+				out = append(out, v)
 			}
 		}
 	}
 	if len(out) > budget {
+		// stratified: every kind of injected call (check of each tag, query of each path) is taken in turn, so that
+		// a small budget still exercises each of them at some gap
 		rng.Shuffle(len(out), func(i, j int) { out[i], out[j] = out[j], out[i] })
-		out = out[:budget]
+		groups := map[string][]*Variant{}
+		var keys []string
+		for _, v := range out {
+			k := v.Class
+			if _, ok := groups[k]; !ok {
+				keys = append(keys, k)
+			}
+			groups[k] = append(groups[k], v)
+		}
+		sort.Strings(keys)
+		var sel []*Variant
+		for len(sel) < budget {
+			took := false
+			for _, k := range keys {
+				if len(groups[k]) > 0 && len(sel) < budget {
+					sel = append(sel, groups[k][0])
+					groups[k] = groups[k][1:]
+					took = true
+				}
+			}
+			if !took {
+				break
+			}
+		}
+		out = sel
 	}
 	return out, a, nil
 }
